@@ -372,6 +372,24 @@ func (x *run) execStep(s *sim.Step) {
 		return
 	}
 	pre := x.observe(rs)
+	err := x.doStep(rs, s, pre)
+	switch s.Op {
+	case "pull", "merge", "fetch", "restart", "delclocks":
+		concurrent = true
+	}
+	if err == nil {
+		x.res.StepsOK++
+	}
+	x.w.Log.Add("outcome %v", err)
+	if rs.alive && rs.r.Raw != nil {
+		post := x.observe(rs)
+		x.afterStep(rs, s, pre, post, err)
+	}
+	x.w.Log.EndStep(label, concurrent)
+}
+
+// doStep performs the action of a step on a live replica.
+func (x *run) doStep(rs *repState, s *sim.Step, pre *obs) error {
 	var err error
 	switch s.Op {
 	case "newbug":
@@ -384,15 +402,17 @@ func (x *run) execStep(s *sim.Step) {
 		err = x.guard("push", func() error { return x.stepPush(rs, s) })
 	case "pull", "merge", "fetch":
 		err = x.guard("pull", func() error { return x.stepPull(rs, s, pre) })
-		concurrent = true
 	case "identmut":
 		err = x.guard("identity mutate", func() error { return x.stepIdentMut(rs, s) })
+	case "newident":
+		err = x.guard("new identity", func() error {
+			_, e := x.newIdentity(rs, "extra "+s.S, "extra@example.org")
+			return e
+		})
 	case "restart":
 		err = x.guard("restart", func() error { return x.stepRestart(rs, s) })
-		concurrent = true
 	case "delclocks":
 		err = x.guard("reopen", func() error { return x.stepDelClocks(rs, s) })
-		concurrent = true
 	case "clockjump":
 		// D already applied
 	case "partition":
@@ -409,15 +429,7 @@ func (x *run) execStep(s *sim.Step) {
 	default:
 		x.res.HarnessErr = "unknown step " + s.Op
 	}
-	if err == nil {
-		x.res.StepsOK++
-	}
-	x.w.Log.Add("outcome %v", err)
-	if rs.alive && rs.r.Raw != nil {
-		post := x.observe(rs)
-		x.afterStep(rs, s, pre, post, err)
-	}
-	x.w.Log.EndStep(label, concurrent)
+	return err
 }
 
 // saveFile stores an attached file through the API and remembers its content.
